@@ -5,11 +5,12 @@
   `rtr_bgpsec_validate_as_path`, key selection, error-code order) over uninterpreted `hash`/`verify`.
   Spec:  Rtr.Rfc8205.digest (RFC 8205 §4.2, written as a recursion over the path).
 
-  `KeyMode.skiAndAs` is the repaired code (a router key counts only if it is registered for the
-  segment's SKI AND for the AS of the corresponding Secure_Path segment); `KeyMode.skiOnly` is the
-  tree as it stands (finding F10, signature "C11/key-as-mismatch"): for it the full-strength
-  statement is refuted on a concrete witness (`decision_fails_skiOnly`) and the SKI-only part is
-  kept as `decision_partial`.
+  `KeyMode.skiAndAs` + `stop = true` is the repaired code: a router key counts only if it is registered
+  for the segment's SKI AND for the AS of the corresponding Secure_Path segment, and the validation
+  loop ends with the Signature Segment list.  `KeyMode.skiOnly` + `stop = false` is the tree as it
+  stands: finding F10 (signature "C11/key-as-mismatch") — the full-strength statement is refuted on a
+  concrete witness (`decision_fails_skiOnly`), the SKI-only part is kept as `decision_partial` — and
+  the loop-overrun finding (`loop_overrun_current`, signature "C11/loop-overrun").
 -/
 import RtrProofs.Bgpsec
 
@@ -36,35 +37,46 @@ theorem align_length (ty : AlignType) (d : Data) (hn : d.nlri.bytes.length = nlr
 section
 variable {H : Type} (hash : List Nat → H) (verify : List Nat → H → List Nat → VRes)
 
-/-- **Decision, full strength** (repaired key selection).  The answer is VALID exactly when the
-    pre-checks pass and, for every Signature Segment `i`, some router key registered for the
-    segment's SKI and for the AS number of Secure_Path Segment `i` verifies the signature over the
-    RFC 8205 §4.2 sequence of hop `i`.
-    Hypotheses: SKIs are 20 octets (`uint8_t ski[20]`), and `NoOverrun` (see RtrProofs.Bgpsec: the
-    loop is bounded by the stream offset; it stops after the last segment iff the last signature is
-    longer than `nlri octets - 13`, which holds for `nlri_len ≤ 128` and any ≥ 4-octet signature). -/
-theorem decision (d : Data) (T : Table) (hski : ∀ s ∈ d.sigs, s.ski.length = 20) (hover : NoOverrun d) :
-    validate hash verify .skiAndAs d T = .valid ↔
+/-- **Decision, full strength** (repaired key selection, repaired loop bound).  The answer is VALID
+    exactly when the pre-checks pass and, for every Signature Segment `i`, some router key registered
+    for the segment's SKI and for the AS number of Secure_Path Segment `i` verifies the signature over
+    the RFC 8205 §4.2 sequence of hop `i`.  Only hypothesis: SKIs are 20 octets (`uint8_t ski[20]`). -/
+theorem decision (d : Data) (T : Table) (hski : ∀ s ∈ d.sigs, s.ski.length = 20) :
+    validate hash verify .skiAndAs true d T = .valid ↔
       Supported d ∧ ∀ i s p, d.sigs[i]? = some s → d.path[i]? = some p →
         ∃ k ∈ T, k.ski = s.ski ∧ k.asn = p.asn ∧ verify k.spki (hash (digest d i)) s.sig = .valid := by
-  rw [validate_iff_allOk hash verify .skiAndAs T d hski hover]
+  rw [validate_iff_allOk hash verify .skiAndAs true T d hski (Or.inl rfl)]
   apply and_congr_right
   intro hsup
   rw [allOk_iff_forall hash verify .skiAndAs T d d.path d.sigs d.targetAs hsup.2.2.1]
   simp only [KeyVerifies, keyOk, Bool.and_eq_true, decide_eq_true_eq, digest, targetAt, and_assoc]
 
-/-- **Decision, SKI only** (`_partial`: what the current tree implements).  Same statement without
-    the requirement that the key be registered for the AS of the Secure_Path segment.
-    MISSING w.r.t. the property: `k.asn = p.asn`. -/
+/-- **Decision of the current tree** (`_partial`: SKI-only key selection, loop bounded by the stream
+    offset).  MISSING w.r.t. the property: (1) `k.asn = p.asn` — the key need not be registered for the
+    AS of the Secure_Path segment (F10); (2) the hypothesis `NoOverrun` (RtrProofs.Bgpsec): the loop
+    stops after the last segment only if the last signature is longer than `nlri octets - 13`, which
+    holds for `nlri_len ≤ 128` and any ≥ 4-octet signature, but not in general (`loop_overrun_current`). -/
 theorem decision_partial (d : Data) (T : Table) (hski : ∀ s ∈ d.sigs, s.ski.length = 20) (hover : NoOverrun d) :
-    validate hash verify .skiOnly d T = .valid ↔
+    validate hash verify .skiOnly false d T = .valid ↔
       Supported d ∧ ∀ i s p, d.sigs[i]? = some s → d.path[i]? = some p →
         ∃ k ∈ T, k.ski = s.ski ∧ verify k.spki (hash (digest d i)) s.sig = .valid := by
-  rw [validate_iff_allOk hash verify .skiOnly T d hski hover]
+  rw [validate_iff_allOk hash verify .skiOnly false T d hski (Or.inr hover)]
   apply and_congr_right
   intro hsup
   rw [allOk_iff_forall hash verify .skiOnly T d d.path d.sigs d.targetAs hsup.2.2.1]
   simp only [KeyVerifies, keyOk, decide_eq_true_eq, digest, targetAt]
+
+/-- the same for any combination of key selection and loop bound (used by C12) -/
+theorem decision_general (m : KeyMode) (stop : Bool) (d : Data) (T : Table) (hski : ∀ s ∈ d.sigs, s.ski.length = 20)
+    (hover : stop = true ∨ NoOverrun d) :
+    validate hash verify m stop d T = .valid ↔
+      Supported d ∧ ∀ i s p, d.sigs[i]? = some s → d.path[i]? = some p →
+        ∃ k ∈ T, keyOk m s.ski p.asn k = true ∧ verify k.spki (hash (digest d i)) s.sig = .valid := by
+  rw [validate_iff_allOk hash verify m stop T d hski hover]
+  apply and_congr_right
+  intro hsup
+  rw [allOk_iff_forall hash verify m T d d.path d.sigs d.targetAs hsup.2.2.1]
+  simp only [KeyVerifies, digest, targetAt]
 
 end
 
@@ -97,12 +109,12 @@ def keysRight : Table := [⟨65536, ski1, [11]⟩, ⟨64496, ski2, [22]⟩]
 def keysWrongAs : Table := [⟨11111, ski1, [11]⟩, ⟨22222, ski2, [22]⟩]
 
 /-- with the keys under other AS numbers the SKI-only code still answers VALID … -/
-theorem witness_valid_skiOnly : validate toyHash toyVerify .skiOnly witness keysWrongAs = .valid := by decide
+theorem witness_valid_skiOnly : validate toyHash toyVerify .skiOnly false witness keysWrongAs = .valid := by decide
 
 /-- … so the property's statement does not hold for it: -/
 theorem decision_fails_skiOnly :
     ¬ (∀ (d : Data) (T : Table), (∀ s ∈ d.sigs, s.ski.length = 20) → NoOverrun d →
-        (validate toyHash toyVerify .skiOnly d T = .valid ↔
+        (validate toyHash toyVerify .skiOnly false d T = .valid ↔
           Supported d ∧ ∀ i s p, d.sigs[i]? = some s → d.path[i]? = some p →
             ∃ k ∈ T, k.ski = s.ski ∧ k.asn = p.asn ∧ toyVerify k.spki (toyHash (digest d i)) s.sig = .valid)) := by
   intro h
@@ -112,7 +124,24 @@ theorem decision_fails_skiOnly :
   rcases hk with rfl | rfl <;> simp at hasn
 
 /-- the repaired selection refuses the same input (not VALID, and with the specific code) -/
-theorem witness_refused_skiAndAs : validate toyHash toyVerify .skiAndAs witness keysWrongAs = .routerKeyNotFound := by decide
+theorem witness_refused_skiAndAs : validate toyHash toyVerify .skiAndAs true witness keysWrongAs = .routerKeyNotFound := by decide
+
+/-! ### the loop bound of the current tree
+
+Toy crypto in which a short signature verifies: one hop, `nlri_len = 255` (32 octets, never checked
+against the AFI), a 3-octet signature.  After the only segment has verified, `offset = 3 + 28 = 31`
+is still `≤ stream size = 47`, the loop runs again with `tmp_sig == NULL`. -/
+
+def toyVerifyShort (spki : List Nat) (_ : List Nat) (sig : List Nat) : VRes := if sig = spki then .valid else .notValid
+def overrunData : Data :=
+  { alg := 1, afi := 1, safi := 1, targetAs := 65537, nlri := ⟨1, 255, List.replicate 32 170⟩,
+    path := [⟨1, 0, 64500⟩], sigs := [⟨ski1, [7, 7, 7]⟩] }
+def overrunKeys : Table := [⟨64500, ski1, [7, 7, 7]⟩]
+
+/-- the current loop dereferences NULL although every hop verifies under a key of its AS … -/
+theorem loop_overrun_current : validate toyHash toyVerifyShort .skiOnly false overrunData overrunKeys = .fault := by decide
+/-- … the repaired loop answers VALID -/
+theorem loop_overrun_repaired : validate toyHash toyVerifyShort .skiAndAs true overrunData overrunKeys = .valid := by decide
 
 /-! ### every signed field is determined by the hashed octets -/
 
@@ -150,39 +179,39 @@ theorem digest_changes (d d' : Data) (w : WfData d) (w' : WfData d')
 /-! ### error codes, in the order the entry point checks them -/
 
 section
-variable {H : Type} (hash : List Nat → H) (verify : List Nat → H → List Nat → VRes) (m : KeyMode)
+variable {H : Type} (hash : List Nat → H) (verify : List Nat → H → List Nat → VRes) (m : KeyMode) (stop : Bool)
 
 /-- `!data || !table` -/
 theorem err_null (d : Option Data) (T : Option Table) (h : d = none ∨ T = none) :
-    validateArgs hash verify m d T = .invalidArguments := by
+    validateArgs hash verify m stop d T = .invalidArguments := by
   rcases h with rfl | rfl
   · rfl
   · cases d <;> rfl
 
 /-- `!data->path || !data->sigs` -/
 theorem err_arguments (d : Data) (T : Table) (h : d.path = [] ∨ d.sigs = []) :
-    validate hash verify m d T = .invalidArguments := by
+    validate hash verify m stop d T = .invalidArguments := by
   unfold validate; rw [if_pos h]
 
 theorem err_segment_count (d : Data) (T : Table) (h0 : ¬ (d.path = [] ∨ d.sigs = []))
-    (h : d.path.length ≠ d.sigs.length) : validate hash verify m d T = .wrongSegmentCount := by
+    (h : d.path.length ≠ d.sigs.length) : validate hash verify m stop d T = .wrongSegmentCount := by
   unfold validate; rw [if_neg h0, if_pos h]
 
 theorem err_suite (d : Data) (T : Table) (h0 : ¬ (d.path = [] ∨ d.sigs = []))
     (h1 : d.path.length = d.sigs.length) (h : d.alg ≠ 1) :
-    validate hash verify m d T = .unsupportedAlgorithmSuite := by
+    validate hash verify m stop d T = .unsupportedAlgorithmSuite := by
   unfold validate; rw [if_neg h0, if_neg (by omega), if_pos h]
 
 theorem err_afi (d : Data) (T : Table) (h0 : ¬ (d.path = [] ∨ d.sigs = []))
     (h1 : d.path.length = d.sigs.length) (h2 : d.alg = 1) (h : d.nlri.afi ≠ 1 ∧ d.nlri.afi ≠ 2) :
-    validate hash verify m d T = .unsupportedAfi := by
+    validate hash verify m stop d T = .unsupportedAfi := by
   unfold validate; rw [if_neg h0, if_neg (by omega), if_neg (by omega), if_pos h]
 
 /-- a Signature Segment for which no router key counts (`skiOnly`: none with that SKI; `skiAndAs`:
     none with that SKI under the AS of the Secure_Path segment) → `ROUTER_KEY_NOT_FOUND` -/
 theorem err_missing_key (d : Data) (T : Table) (hsup : Supported d) (i : Nat) (s : SigSeg) (p : PathSeg)
     (hs : d.sigs[i]? = some s) (hp : d.path[i]? = some p) (hk : keysFor m T s.ski p.asn = []) :
-    validate hash verify m d T = .routerKeyNotFound := by
+    validate hash verify m stop d T = .routerKeyNotFound := by
   obtain ⟨a, b, c, e, f⟩ := hsup
   unfold validate
   rw [if_neg (by simp [a, b]), if_neg (by omega), if_neg (by omega), if_neg (by omega),
@@ -190,7 +219,7 @@ theorem err_missing_key (d : Data) (T : Table) (hsup : Supported d) (i : Nat) (s
 
 /-- whenever one of the pre-checks fails the answer is not VALID -/
 theorem never_valid_unless_supported (d : Data) (T : Table) (h : ¬ Supported d) :
-    validate hash verify m d T ≠ .valid := by
+    validate hash verify m stop d T ≠ .valid := by
   unfold Supported at h
   unfold validate
   by_cases h1 : d.path = [] ∨ d.sigs = []
@@ -209,8 +238,8 @@ end
 
 -- the witness path meets every hypothesis of `decision`, and validates with the keys under the right AS
 example : (∀ s ∈ witness.sigs, s.ski.length = 20) ∧ NoOverrun witness ∧ Supported witness := by decide
-example : validate toyHash toyVerify .skiAndAs witness keysRight = .valid := by decide
-example : validate toyHash toyVerify .skiOnly witness keysRight = .valid := by decide
+example : validate toyHash toyVerify .skiAndAs true witness keysRight = .valid := by decide
+example : validate toyHash toyVerify .skiOnly false witness keysRight = .valid := by decide
 -- align_eq_rfc at hop 1 of the witness: offset 29 + 2·… is non-trivial
 example : offsetAt witness.sigs 1 = wsig2.length + 28 ∧ (alignBytes .validation witness).drop (offsetAt witness.sigs 1) = digest witness 1 := by decide
 -- the hop-1 sequence is the RFC 8208 origin sequence: target 65536, (1,0,64496), suite 1, AFI 1, SAFI 1, /24 192.0.2
@@ -220,9 +249,9 @@ example : WfData witness := by
   constructor <;> decide
 example : digest witness 0 ≠ digest { witness with path := [⟨1, 0, 65536⟩, ⟨0, 0, 64496⟩] } 0 := by decide
 -- error codes reached
-example : validate toyHash toyVerify .skiOnly { witness with sigs := witness.sigs.drop 1 } keysRight = .wrongSegmentCount := by decide
-example : validate toyHash toyVerify .skiOnly { witness with alg := 2 } keysRight = .unsupportedAlgorithmSuite := by decide
-example : validate toyHash toyVerify .skiOnly { witness with nlri := ⟨3, 24, [192, 0, 2]⟩ } keysRight = .unsupportedAfi := by decide
-example : validate toyHash toyVerify .skiOnly witness (keysRight.drop 1) = .routerKeyNotFound := by decide
+example : validate toyHash toyVerify .skiOnly false { witness with sigs := witness.sigs.drop 1 } keysRight = .wrongSegmentCount := by decide
+example : validate toyHash toyVerify .skiOnly false { witness with alg := 2 } keysRight = .unsupportedAlgorithmSuite := by decide
+example : validate toyHash toyVerify .skiOnly false { witness with nlri := ⟨3, 24, [192, 0, 2]⟩ } keysRight = .unsupportedAfi := by decide
+example : validate toyHash toyVerify .skiOnly false witness (keysRight.drop 1) = .routerKeyNotFound := by decide
 
 end Rtr.C11
